@@ -221,6 +221,8 @@ fn sibling_text(rng: &mut Rng, text: &str) -> String {
 #[allow(clippy::too_many_lines)]
 pub fn case(ctx: &mut Ctx, idx: u64) {
     let mut rng = Rng::for_case(ctx.seed, "C01", idx);
+    // one case in 192 (thorough: 768) carries a slow-search map (see below); each costs tens of CPU seconds
+    let slow_mod: u64 = if ctx.thorough() { 768 } else { 192 };
     let junk_mb = ctx.param_u64("junk_mb", 0);
     // perturb the heap layout of this process once (cross-process monitor)
     static JUNK: std::sync::OnceLock<Vec<Vec<u8>>> = std::sync::OnceLock::new();
@@ -239,6 +241,15 @@ pub fn case(ctx: &mut Ctx, idx: u64) {
                 let file_mode = *rng.pick(&[0u8, 0, 1, 2, 3]);
                 let n = 1030 + rng.usize_below(700);
                 osu::long_file_n(&mut rng, file_mode, n).render()
+            }
+            // one case in 192 (thorough: 768): a map of ~1500 notes whose mania plays are given by accuracy only - the hit-result search
+            // then runs for seconds per call (milliseconds per candidate), long enough for anything that depends on elapsed time, machine
+            // load or a budget to show up as a difference between identical requests
+            (2, _) if idx % slow_mod == 9 => {
+                ctx.count("class:pool-with-slow-search-map");
+                let file_mode = 3u8;
+                let n = 1400 + rng.usize_below(300);
+                osu::phased_file(&mut rng, file_mode, n).render()
             }
             // a hostile neighbour: decoding it ends in the middle of a rejected slider path (every third case)
             (1, _) if idx % 3 == 0 => {
@@ -267,7 +278,8 @@ pub fn case(ctx: &mut Ctx, idx: u64) {
         };
         // a sibling of the previous map: same shape (line count, times), different beat lengths, so that a result
         // remembered by address / shape instead of content would be wrong
-        let text = if k > 0 && rng.chance(0.35) {
+        let special = k == 2 && (idx % 8 == 5 || idx % slow_mod == 9);
+        let text = if k > 0 && !special && rng.chance(0.35) {
             match pool.last() {
                 Some(prev) => sibling_text(&mut rng, &prev.text),
                 None => text,
@@ -295,7 +307,10 @@ pub fn case(ctx: &mut Ctx, idx: u64) {
         let n = e.map.hit_objects.len() as u32;
         let v = (0..3)
             .map(|_| {
-                let m = *rng.pick(&reachable_modes(&e.map));
+                let mut m = *rng.pick(&reachable_modes(&e.map));
+                if idx % slow_mod == 9 && (1390..=1710).contains(&n) && reachable_modes(&e.map).contains(&GameMode::Mania) {
+                    m = GameMode::Mania;
+                }
                 let mut spec = sets::gen_setspec_wide(&mut rng, m, &e.map);
                 if rng.chance(0.3) {
                     spec.passed = Some(rng.below(u64::from(n) + 2) as u32);
@@ -306,7 +321,16 @@ pub fn case(ctx: &mut Ctx, idx: u64) {
                     spec.mods.extra.random = Some(if rng.chance(0.7) { Some(rng.range(0, 99999) as f64) } else { None });
                 }
                 let mut sc = sets::gen_scorespec(&mut rng, n + 2);
-                if n > 400 {
+                let slow_search = idx % slow_mod == 9 && (1390..=1710).contains(&n) && reachable_modes(&e.map).contains(&GameMode::Mania);
+                if slow_search {
+                    // accuracy (and sometimes misses) only, never a round value that the first candidate meets exactly
+                    sc = ScoreSpec {
+                        acc: Some(rng.frange(75.0, 95.0) + 0.000_137),
+                        misses: if rng.chance(0.5) { Some(rng.below(5) as u32) } else { None },
+                        worst: if rng.chance(0.3) { Some(true) } else { None },
+                        ..ScoreSpec::default()
+                    };
+                } else if n > 400 {
                     // long maps: a fully specified state (the hit-result search of generate_state is cubic in the object count
                     // for mania - a time-budget matter that C05 judges inside its <= 400 objects domain)
                     sc = ScoreSpec {
@@ -329,14 +353,47 @@ pub fn case(ctx: &mut Ctx, idx: u64) {
     let mut step = 0usize;
     let mut history: Vec<String> = Vec::new();
     let mut heap_junk: Vec<Vec<u8>> = Vec::new();
+    // index of the slow-search map in the pool (if this case has one): it gets its accuracy-only mania plays for sure
+    let slow_idx = if idx % slow_mod == 9 {
+        pool.iter().position(|e| (1390..=1710).contains(&e.map.hit_objects.len()) && reachable_modes(&e.map).contains(&GameMode::Mania))
+    } else {
+        None
+    };
+    if idx % slow_mod == 9 && ctx.verbose {
+        eprintln!("slow_idx={slow_idx:?} pool sizes={:?} modes={:?}", pool.iter().map(|e| e.map.hit_objects.len()).collect::<Vec<_>>(), pool.iter().map(|e| e.map.mode).collect::<Vec<_>>());
+    }
+    let mut rounds = 0usize;
     while step < n_ops {
-        let mi = rng.usize_below(pool.len());
+        rounds += 1;
+        let mut mi = rng.usize_below(pool.len());
         let vi = rng.usize_below(3);
-        let op = gen_op(&mut rng, &pool[mi].map);
-        let reps = 1 + rng.usize_below(4);
-        for _ in 0..reps {
+        let mut op = gen_op(&mut rng, &pool[mi].map);
+        let mut reps = 1 + rng.usize_below(4);
+        if let (Some(si), true) = (slow_idx, rounds == 2 || rounds == 9) {
+            mi = si;
+            op = if rounds == 2 { Op::Performance(GameMode::Mania) } else { Op::PerformanceReusedBuilder(GameMode::Mania) };
+            reps = 2;
+        }
+        for rep in 0..reps {
             step += 1;
             let (spec, sc, states) = &variants[mi][vi];
+            // every second observation of a slow search runs on a loaded machine: six spinning threads compete for the cores
+            // for the duration of the call ("results do not depend on time or load")
+            let load_stop = std::sync::Arc::new(std::sync::atomic::AtomicBool::new(false));
+            let mut spinners = Vec::new();
+            if slow_idx == Some(mi) && matches!(op, Op::Performance(_) | Op::PerformanceReusedBuilder(_)) && rep % 2 == 1 {
+                for _ in 0..6 {
+                    let stop = load_stop.clone();
+                    spinners.push(std::thread::spawn(move || {
+                        let mut x = 1u64;
+                        while !stop.load(std::sync::atomic::Ordering::Relaxed) {
+                            x = x.wrapping_mul(6364136223846793005).wrapping_add(1);
+                            std::hint::black_box(x);
+                        }
+                    }));
+                }
+                ctx.count("observations_under_injected_cpu_load");
+            }
             // fresh vs reused builder value
             let use_reused = rng.chance(0.5);
             let slot = mi * 3 + vi;
@@ -378,6 +435,10 @@ pub fn case(ctx: &mut Ctx, idx: u64) {
             } else {
                 guard(|| run_op(&op, e, spec, sc, states, d_reused.as_ref(), &tmp))
             };
+            load_stop.store(true, std::sync::atomic::Ordering::Relaxed);
+            for h in spinners {
+                let _ = h.join();
+            }
             ctx.eval();
             let key = format!("{idx}/{mi}/{}/{}", op_name(&op), hash_str(&format!("{} {}", spec.describe(), sc.describe())));
             history.push(format!("{}@map{mi}{}", op_name(&op), if on_thread { "(thread)" } else { "" }));
